@@ -372,3 +372,136 @@ func TestProp_Walk(t *testing.T) {
 		ev.Case("walk", mode+"|"+src, entered >= 15, append(cls, "policy="+mode)...)
 	})
 }
+
+// ---------- pruning as a metamorphic relation (independent of the reflection ground truth and of any node classification)
+
+type logEntry struct {
+	typ, str string
+	size     int // number of entries of the subtree, the node included
+}
+
+type fullVisitor struct {
+	log   *[]logEntry
+	stack *[]int
+}
+
+func (v fullVisitor) Enter(n js.INode) js.IVisitor {
+	*v.stack = append(*v.stack, len(*v.log))
+	*v.log = append(*v.log, logEntry{typ: fmt.Sprintf("%T", n), str: n.String()})
+	return v
+}
+
+func (v fullVisitor) Exit(n js.INode) {
+	s := *v.stack
+	i := s[len(s)-1]
+	*v.stack = s[:len(s)-1]
+	(*v.log)[i].size = len(*v.log) - i
+}
+
+type pruneVisitor struct {
+	full  []logEntry
+	prune map[int]bool
+	fi    *int // index into the full log of the node that must be entered next
+	fail  func(format string, args ...any)
+	depth *int
+}
+
+func (v pruneVisitor) Enter(n js.INode) js.IVisitor {
+	i := *v.fi
+	if i >= len(v.full) {
+		v.fail("a node %T %q is entered after the %d nodes of the full traversal (minus the pruned subtrees) have all been seen", n, n.String(), len(v.full))
+		return nil
+	}
+	if e := v.full[i]; e.typ != fmt.Sprintf("%T", n) || e.str != n.String() {
+		v.fail("with subtrees pruned, Enter receives %T %q where the full traversal has %s %q next (entry %d)", n, n.String(), e.typ, e.str, i)
+		return nil
+	}
+	if v.prune[i] {
+		*v.fi = i + v.full[i].size
+		return nil
+	}
+	*v.fi = i + 1
+	*v.depth++
+	return v
+}
+
+func (v pruneVisitor) Exit(n js.INode) { *v.depth-- }
+
+func TestProp_PruneMetamorphic(t *testing.T) {
+	ev.Describe("prune", "the same trees; first a visitor that descends everywhere records the Enter sequence (type, String()) and, from the Enter/Exit brackets, the extent of every node's subtree; then a second walk returns nil at a drawn set of entries; oracle: the second Enter sequence is exactly the first with the subtrees of the pruned entries cut out, nothing more (a sibling skipped together with a pruned node) and nothing less, whatever kind of node is pruned (statements, expressions, bindings, identifiers, import/export specifiers, property names, ...), and Enter/Exit stay balanced; non-trivial = >= 15 entries and >= 1 pruned entry that has a following sibling")
+	ev.Check(t, 5000, func(t *rapid.T) {
+		src, ast := genTree(t)
+		var full []logEntry
+		var stack []int
+		js.Walk(fullVisitor{&full, &stack}, ast)
+		if len(stack) != 0 {
+			t.Fatalf("%q: %d nodes entered but not exited in the full traversal", src, len(stack))
+		}
+		prune := map[int]bool{}
+		mode := rapid.SampledFrom([]string{"few", "leaves", "type", "dense"}).Draw(t, "prunemode")
+		switch mode {
+		case "few":
+			for k := rapid.IntRange(1, 3).Draw(t, "nprune"); k > 0 && len(full) > 1; k-- {
+				prune[rapid.IntRange(1, len(full)-1).Draw(t, "at")] = true
+			}
+		case "leaves":
+			// stopping at a leaf must not change anything but that leaf's (empty) subtree
+			p := rapid.IntRange(1, 4).Draw(t, "every")
+			for i, e := range full {
+				if i > 0 && e.size == 1 && i%p == 0 {
+					prune[i] = true
+				}
+			}
+		case "type":
+			if len(full) > 1 {
+				ty := full[rapid.IntRange(1, len(full)-1).Draw(t, "typeof")].typ
+				for i, e := range full {
+					if i > 0 && e.typ == ty {
+						prune[i] = true
+					}
+				}
+			}
+		case "dense":
+			mask := rapid.Uint64().Draw(t, "mask")
+			for i := range full {
+				if i > 0 && (mask>>(uint(i)%64))&1 == 1 {
+					prune[i] = true
+				}
+			}
+		}
+		fi, depth := 0, 0
+		failed := ""
+		v := pruneVisitor{full: full, prune: prune, fi: &fi, depth: &depth, fail: func(format string, args ...any) {
+			if failed == "" {
+				failed = fmt.Sprintf(format, args...)
+			}
+		}}
+		js.Walk(v, ast)
+		if failed != "" {
+			t.Fatalf("%q (pruned entries %v): %s", src, keys(prune), failed)
+		}
+		if fi != len(full) {
+			e := full[fi]
+			t.Fatalf("%q (pruned entries %v): the walk ends although %s %q (entry %d of the full traversal) is not below any pruned node and was never entered", src, keys(prune), e.typ, e.str, fi)
+		}
+		if depth != 0 {
+			t.Fatalf("%q: Enter/Exit unbalanced by %d with pruning", src, depth)
+		}
+		sibling := false
+		for i := range prune {
+			if i+full[i].size < len(full) {
+				sibling = true
+			}
+		}
+		ev.Case("prune", mode+"|"+fmt.Sprint(keys(prune))+"|"+src, len(full) >= 15 && sibling, "mode="+mode)
+	})
+}
+
+func keys(m map[int]bool) []int {
+	out := make([]int, 0, len(m))
+	for k := range m {
+		out = append(out, k)
+	}
+	sort.Ints(out)
+	return out
+}
